@@ -106,7 +106,7 @@ def life_job(rep, own, known):
     outs = engine.pool_map('life', 'replay', recs)
     engine.process_results(rep, recs, outs, own, known, clause_base=lambda c: c.split('@')[0],
                            sig_fn=lambda r: ';'.join('%s(%s)' % (h['op'], h['arg']) for h in r['hist']))
-    mc_lifecycle(rep)
+    if rep.pid == 'C13': mc_lifecycle(rep)     # the exhaustive model check belongs to C13; the other properties reuse the histories
 
 
 def mc_lifecycle(rep):
